@@ -13,7 +13,7 @@ pub struct C02 {
 
 impl C02 {
     pub fn new(tier: Tier) -> C02 {
-        let sets = hl_sets(&Bounds { t: tier.pick(5, 6), q: tier.pick(3, 4), words: tier.pick(2, 3), corpus: true, pairs: true, fams: vec![1, 2, 3, 4, 5] });
+        let sets = hl_sets(&Bounds { t: tier.pick(5, 6), q: tier.pick(3, 4), words: tier.pick(2, 3), corpus: true, pairs: true, fams: vec![1, 2, 3, 4, 5, 7] });
         let inv = LANGS.iter().map(|l| frozen_inventory(*l)).collect();
         C02 { sets, inv }
     }
